@@ -123,7 +123,31 @@ def run(ctx, idx):
         for n in c.find("call", lambda n: n.meta.get("qual") == "builtins.next" and len(n.ast.args) == 1):
             pads = [m for m, l in n.succ if l == "exc"]
             caught = any(h.kind == "handler" and any("StopIteration" in str(t) or t in ("builtins.Exception",) for t in (h.meta.get("types") or ["bare"])) for p in pads for h, _ in [(x, 0) for x, _l in p.succ])
-            ctx.ob("C13.b", "%s::next()" % f.key, K.rel(f), n.line, caught, "StopIteration handled" if caught else "next() without a default outside a StopIteration handler")
+            if not caught:
+                # next(iter(X)) / next(iter(X.values())) where X was just tested non-empty: a test on X itself whose true edge is the
+                # only way to the call, with nothing in between that stores to X or calls a method on it
+                a0 = n.ast.args[0]
+                inner = a0.args[0] if isinstance(a0, ast.Call) and isinstance(a0.func, ast.Name) and a0.func.id == "iter" and len(a0.args) == 1 else None
+                if isinstance(inner, ast.Call) and isinstance(inner.func, ast.Attribute) and inner.func.attr in ("values", "keys", "items") and not inner.args:
+                    inner = inner.func.value
+                if inner is not None:
+                    text = K.src(inner)
+                    for t in c.find("test", lambda t: K.src(t.ast) == text):
+                        if not c.dominates(t, n):
+                            continue
+                        seen, work = set(), [m for m, l in t.succ if l != "true"]
+                        while work:
+                            x = work.pop()
+                            if x in seen:
+                                continue
+                            seen.add(x)
+                            work += [m for m, l in x.succ]
+                        via_true = c.reachable([m for m, l in t.succ if l == "true"], avoid={n})
+                        between = [x for x in via_true if x.kind in ("store", "call") and x is not t and text in K.src(x.ast) and not (x.kind == "call" and x.ast is inner)]
+                        between = [x for x in between if c.reachable(x) & {n} and not any(x.ast is y for y in ast.walk(n.ast))]
+                        if n not in seen and not between:
+                            caught = True
+            ctx.ob("C13.b", "%s::next()" % f.key, K.rel(f), n.line, caught, "StopIteration handled, or the container was tested non-empty" if caught else "next() without a default outside a StopIteration handler")
     # ------------------------------------------------------------------ c
     rel = lexicon.mod.rel
     for nm, fn in (("t_error", lexicon.t_error), ("p_error", lexicon.p_error)):
